@@ -397,14 +397,15 @@ def gen(rng, depth, want="int", allow_err=0.04):
 def first_str_byte_high(n):
     """does the tree contain a string value whose first encoded byte is >= 0x80 used as an integer? (F20)"""
     found = []
-    def walk(n, enc="utf8"):
+    def walk(n, enc=None):
+        # (of nested encoding functions the outermost decides the bytes: utf8(utf16le("x")) is the UTF-8 encoding)
         if n.kind == "str":
-            b = encode(n.v, enc)
+            b = encode(n.v, enc or "utf8")
             if b and b[0] >= 0x80:
                 found.append(True)
         elif n.kind == "call" and n.fn in ("ascii", "utf8", "utf16be", "utf16le", "utf32be", "utf32le"):
             for kkid in n.kids:
-                walk(kkid, n.fn)
+                walk(kkid, enc or n.fn)
         else:
             for kkid in n.kids:
                 walk(kkid, enc)
